@@ -51,6 +51,8 @@ func (*c08) Impl(c Case) []string {
 				return c08TagSwap(atoi(t[2]), atoi(t[3]))
 			case "session":
 				return c08Session(atoi(t[2]), atoi(t[3]))
+			case "dupdelete":
+				return c08DupDelete(atoi(t[2]), atoi(t[3]))
 			case "mixed":
 				return c08Mixed(atoi(t[2]), atoi(t[3]), uint64(atoi(t[4])), t[5] == "1")
 			case "lin":
@@ -193,6 +195,52 @@ func c08Session(rounds, writers int) string {
 	return "ok"
 }
 
+// c08DupDelete: several goroutines delete the same blob at once while readers keep the registry
+// lock contended; in any sequential order exactly one delete succeeds.
+func c08DupDelete(rounds, deleters int) string {
+	ctx := context.Background()
+	r := ocimem.New()
+	big := bytes.Repeat([]byte("x"), 1<<16)
+	bigDesc := pushBlobOK(r, "a", big)
+	var stop atomic.Bool
+	var bg sync.WaitGroup
+	for i := 0; i < 4; i++ {
+		bg.Add(1)
+		go func() {
+			defer bg.Done()
+			for !stop.Load() {
+				if rd, err := r.GetBlob(ctx, "a", bigDesc.Digest); err == nil {
+					rd.Close()
+				}
+				ociregistry.All(r.Repositories(ctx, ""))
+			}
+		}()
+	}
+	defer func() { stop.Store(true); bg.Wait() }()
+	for round := 0; round < rounds; round++ {
+		d := pushBlobOK(r, "a", []byte("victim-"+strconv.Itoa(round)))
+		var ok atomic.Int64
+		var wg sync.WaitGroup
+		start := make(chan struct{})
+		for i := 0; i < deleters; i++ {
+			wg.Add(1)
+			go func() {
+				defer wg.Done()
+				<-start
+				if r.DeleteBlob(ctx, "a", d.Digest) == nil {
+					ok.Add(1)
+				}
+			}()
+		}
+		close(start)
+		wg.Wait()
+		if n := ok.Load(); n != 1 {
+			return fmt.Sprintf("not-linearizable: %d of %d concurrent deletes of one blob succeeded", n, deleters)
+		}
+	}
+	return "ok"
+}
+
 // c08Mixed: random operations from many goroutines over a small key space, directly or
 // through ociserver (in-process handler calls). Only panics and data races are failures here.
 func c08Mixed(goroutines, ops int, seed uint64, server bool) string {
@@ -312,6 +360,7 @@ func (*c08) Gen(rng *RNG, tier string) []Case {
 	for _, w := range []int{1, 2, 4, 8} {
 		cases = append(cases, Case{Tag: "session", Lines: []string{fmt.Sprintf("conc session %d %d", sr, w)}})
 	}
+	cases = append(cases, Case{Tag: "dupdelete", Lines: []string{fmt.Sprintf("conc dupdelete %d 4", sr*3)}})
 	nm := 12
 	if tier == "thorough" {
 		nm = 100
@@ -430,6 +479,8 @@ func (*c08) Oracle(c Case, impl []string) []Failure {
 			class = "conc-tag-reported-missing"
 		case strings.HasPrefix(got, "stored-content-differs"):
 			class = "conc-committed-blob-mismatch"
+		case strings.HasPrefix(got, "not-linearizable"):
+			class = "conc-not-linearizable:" + t[1]
 		case got == "panic":
 			class = "conc-panic:" + t[1]
 		}
